@@ -696,6 +696,7 @@ func TestC13(t *testing.T) {
 	h.Assume("the reference model internal/refpkg (about 250 lines, recomputes everything from the graph on every query)")
 	h.Assume("steps and probes are Lisp text evaluated through slip.ReadString/Eval; in-package is used to move between packages; packages are removed with slip.RemovePackage after each history and *features* / CL's user list are reset by the harness")
 
+	testUnbindInherited(t)
 	h.RunProp(t, enumVar, 0)
 	h.RunProp(t, enumFn, 0)
 	h.RunProp(t, enumMixed, 0)
